@@ -278,7 +278,7 @@ func RandomOps(r *rand.Rand, o GenOpts) []Op {
 	// and the Spec replays switch-like calls in list order so the model follows.
 	rest := ops[1:]
 	r.Shuffle(len(rest), func(i, j int) { rest[i], rest[j] = rest[j], rest[i] })
-	return ops
+return ops
 }
 
 // RandomStyleOp builds one AllowStyles call.
